@@ -155,7 +155,8 @@ def parse_ob_line(
 ) -> list[str]:
     """Outbrain line parsing - generic TSVs"""
 
-    line_string = line_string.strip()
+    # only the line terminator may go: strip() would also eat empty leading/trailing fields
+    line_string = line_string.rstrip('\r\n')
     parts = line_string.split(delimiter)
     return parts
 
